@@ -2798,4 +2798,192 @@ theorem accepts_iff_50L (s : Text) : (F50L.parse s).isOk = true ↔ Doc.XText 35
     simp [hnl, hne, hl, h3, Res.isOk]
 
 example : (F50L.parse "INSTRUCTING PARTY 1".toList).isOk = true := by decide
+/-! ### option B (52B, 54B, 55B, 57B …) and 53B -/
+
+/-- option B `[/1!a][/34x]` + `[35x]`: nothing; a location alone; a party identifier alone; or both on two lines -/
+def Doc.OptionB (s : Text) : Prop :=
+  s = [] ∨ (s.head? ≠ some '/' ∧ Doc.XText 35 s) ∨ Doc.PartyId s ∨
+  (∃ l loc, s = l ++ '\n' :: loc ∧ Doc.PartyId l ∧ Doc.XText 35 loc)
+
+theorem xtext_no_nl (n : Nat) (s : Text) (h : Doc.XText n s) : ∀ c ∈ s, c ≠ '\n' :=
+  fun c hc => swiftX_not_nl c (h.2.2 c hc)
+
+theorem accepts_iff_optB (s : Text) : (OptB.parse s).isOk = true ↔ Doc.OptionB s := by
+  constructor
+  · intro h
+    unfold OptB.parse at h
+    have hj := joinNl_splitNl s
+    split at h
+    · rename_i he; left; simpa using he
+    · rename_i hne
+      split at h
+      · cases h
+      · rename_i l0 rest hsp
+        rw [hsp] at hj
+        split at h
+        · cases h
+        · cases h
+        · rename_i p hp
+          have hpid := (pid_accepts_iff l0).mp ⟨p, hp⟩
+          split at h
+          · right; right; left
+            have : s = l0 := by rw [← hj]; rfl
+            rw [this]; exact hpid
+          · rename_i loc
+            split at h; · cases h
+            rename_i hl
+            split at h; · cases h
+            rename_i hle
+            split at h
+            · rename_i hx
+              right; right; right
+              refine ⟨l0, loc, by rw [← hj]; rfl, hpid, xtext_of_checks 35 loc (by omega) (by intro e; subst e; simp at hle) hx⟩
+            · cases h
+          · cases h
+        · rename_i hp
+          have hh := pid_none l0 hp
+          split at h; · cases h
+          rename_i hre
+          have hr' : rest = [] := by simpa using hre
+          subst hr'
+          have hs : s = l0 := by rw [← hj]; rfl
+          subst hs
+          split at h; · cases h
+          rename_i hl
+          split at h
+          · rename_i hx
+            right; left
+            exact ⟨hh, xtext_of_checks 35 s (by omega) (by intro e; subst e; simp at hne) hx⟩
+          · cases h
+  · intro h
+    rcases h with rfl | ⟨hh, hd⟩ | hp | ⟨l, loc, rfl, hp, hd⟩
+    · simp [OptB.parse, Res.isOk]
+    · have hnl := xtext_no_nl 35 s hd
+      obtain ⟨h1, h2, h3⟩ := checks_of_xtext 35 s hd
+      have hne : s.isEmpty = false := by cases s <;> simp_all
+      have hl : ¬ blen s > 35 := by omega
+      unfold OptB.parse
+      simp only [hne, Bool.false_eq_true, if_false, splitNl_no_nl s hnl, pid_none_of_head s hh, List.isEmpty_nil, Bool.not_true, hl, h3, if_true]
+      rfl
+    · have hnl := partyId_no_nl s hp
+      obtain ⟨p, hpp⟩ := (pid_accepts_iff s).mpr hp
+      have hne : s.isEmpty = false := by
+        cases s with
+        | nil => simp [parsePartyIdentifier] at hpp
+        | cons _ _ => rfl
+      unfold OptB.parse
+      simp only [hne, Bool.false_eq_true, if_false, splitNl_no_nl s hnl, hpp]
+      rfl
+    · have hnl := partyId_no_nl l hp
+      have hlnl := xtext_no_nl 35 loc hd
+      obtain ⟨p, hpp⟩ := (pid_accepts_iff l).mpr hp
+      obtain ⟨h1, h2, h3⟩ := checks_of_xtext 35 loc hd
+      have hle : loc.isEmpty = false := by cases loc <;> simp_all
+      have hl : ¬ blen loc > 35 := by omega
+      have hne : (l ++ '\n' :: loc).isEmpty = false := by cases l <;> rfl
+      unfold OptB.parse
+      simp only [hne, Bool.false_eq_true, if_false, splitNl_append_nl l loc hnl, splitNl_no_nl loc hlnl, hpp, hl, hle, h3, if_true]
+      rfl
+
+example : Doc.OptionB "/C/12345\nLONDON".toList := by
+  refine Or.inr (Or.inr (Or.inr ⟨"/C/12345".toList, "LONDON".toList, by decide, ?_, ?_⟩))
+  · exact Or.inr (Or.inl ⟨"C".toList, "12345".toList, by decide, by decide, by decide, by decide, by decide, by decide⟩)
+  · exact ⟨by decide, by decide, by decide⟩
+
+/-- 53B `[/1!a][/34x]` + `[35x]` as the library documents it: nothing; one line of x-characters (at most 34 of them
+when it is a party identifier, i.e. starts with a slash; at most 35 otherwise); or a first line of 1 to 34 and a second
+of 1 to 35 x-characters -/
+def Doc.F53B (s : Text) : Prop :=
+  s = [] ∨ (Doc.XText 35 s ∧ (s.head? = some '/' → s.length ≤ 34)) ∨
+  (∃ a b, s = a ++ '\n' :: b ∧ Doc.XText 34 a ∧ Doc.XText 35 b)
+
+theorem accepts_iff_53B (s : Text) : (F53B.parse s).isOk = true ↔ Doc.F53B s := by
+  constructor
+  · intro h
+    unfold F53B.parse at h
+    have hj := joinNl_splitNl s
+    split at h
+    · rename_i he; left; simpa using he
+    · rename_i hne
+      have hne' : s ≠ [] := by intro e; subst e; simp at hne
+      simp only at h
+      split at h; · cases h
+      split at h; · cases h
+      rename_i hany
+      split at h
+      · rename_i a b hsp
+        rw [hsp] at hj
+        simp only [hsp, List.any_cons, List.any_nil, Bool.or_false, Bool.or_eq_true, not_or, Bool.not_eq_true] at hany
+        split at h; · cases h
+        rename_i hla
+        split at h; · cases h
+        rename_i hxa
+        split at h; · cases h
+        rename_i hlb
+        split at h; · cases h
+        rename_i hxb
+        simp only [Bool.not_eq_true', Bool.not_eq_false] at hxa hxb
+        right; right
+        refine ⟨a, b, by rw [← hj]; rfl, xtext_of_checks 34 a (by omega) (by intro e; subst e; simp at hany) hxa,
+          xtext_of_checks 35 b (by omega) (by intro e; subst e; simp at hany) hxb⟩
+      · rename_i line hsp
+        rw [hsp] at hj
+        have hs : s = line := by rw [← hj]; rfl
+        subst hs
+        right; left
+        split at h
+        · rename_i hparty
+          split at h; · cases h
+          rename_i hl
+          split at h; · cases h
+          rename_i hx
+          simp only [Bool.not_eq_true', Bool.not_eq_false] at hx
+          have hd := xtext_of_checks 34 s (by omega) hne' hx
+          exact ⟨⟨hd.1, by have := hd.2.1; omega, hd.2.2⟩, fun _ => hd.2.1⟩
+        · rename_i hparty
+          split at h; · cases h
+          rename_i hl
+          split at h; · cases h
+          rename_i hx
+          simp only [Bool.not_eq_true', Bool.not_eq_false] at hx
+          refine ⟨xtext_of_checks 35 s (by omega) hne' hx, fun hh => ?_⟩
+          simp [hh] at hparty
+      · cases h
+  · intro h
+    rcases h with rfl | ⟨hd, hh⟩ | ⟨a, b, rfl, ha, hb⟩
+    · simp [F53B.parse, Res.isOk]
+    · have hnl := xtext_no_nl 35 s hd
+      obtain ⟨h1, h2, h3⟩ := checks_of_xtext 35 s hd
+      have hasc := all_swiftX_ascii s h3
+      have hbl := blen_ascii s hasc
+      have hne : s.isEmpty = false := by cases s <;> simp_all
+      unfold F53B.parse
+      simp only [hne, Bool.false_eq_true, if_false, splitNl_no_nl s hnl, List.length_singleton, List.any_cons, List.any_nil, Bool.or_false]
+      have hl35 : ¬ blen s > 35 := by omega
+      simp only [show ¬ (1 > 2) by omega, if_false, h3, Bool.not_true, hl35]
+      split
+      · rename_i hparty
+        have hl34 : ¬ blen s > 34 := by
+          simp only [Bool.or_eq_true, beq_iff_eq, Bool.and_eq_true, decide_eq_true_eq] at hparty
+          rcases hparty with hp | hp
+          · have := hh hp; omega
+          · omega
+        simp only [hl34, if_false]; rfl
+      · rfl
+    · have hanl := xtext_no_nl 34 a ha
+      have hbnl := xtext_no_nl 35 b hb
+      obtain ⟨a1, a2, a3⟩ := checks_of_xtext 34 a ha
+      obtain ⟨b1, b2, b3⟩ := checks_of_xtext 35 b hb
+      have hae : a.isEmpty = false := by cases a <;> simp_all
+      have hbe : b.isEmpty = false := by cases b <;> simp_all
+      have hne : (a ++ '\n' :: b).isEmpty = false := by cases a <;> rfl
+      have hla : ¬ blen a > 34 := by omega
+      have hlb : ¬ blen b > 35 := by omega
+      unfold F53B.parse
+      simp only [hne, Bool.false_eq_true, if_false, splitNl_append_nl a b hanl, splitNl_no_nl b hbnl, List.length_cons, List.length_nil,
+        List.any_cons, List.any_nil, hae, hbe, Bool.or_false, show ¬ (0 + 1 + 1 > 2) by omega, hla, hlb, a3, b3, Bool.not_true]
+      rfl
+
+example : Doc.F53B "/C/12345\nLONDON".toList :=
+  Or.inr (Or.inr ⟨"/C/12345".toList, "LONDON".toList, by decide, ⟨by decide, by decide, by decide⟩, ⟨by decide, by decide, by decide⟩⟩)
 end SwiftMT.Props.C05
